@@ -7,6 +7,7 @@
 From FlacBase Require Import Res Bits.
 From FlacMeta Require Import Bytes Bytes_proofs Blocks BlockList Blocks_proofs Blocks_proofs2 Blocks_level BlockList_proofs.
 From FlacCodec Require Ast Stream.
+From FlacUpdIo Require GenUpd Update Update_proofs.
 From FlacE2EUpd Require Import RealCodec.
 Open Scope N_scope.
 Local Arguments N.add : simpl never.
@@ -15,6 +16,9 @@ Local Arguments N.div : simpl never.
 Local Arguments N.modulo : simpl never.
 Local Arguments N.pow : simpl never.
 
+Module U := FlacUpdIo.Update.
+Module G := FlacUpdIo.GenUpd.
+Module UP := FlacUpdIo.Update_proofs.
 Module C := FlacCodec.Ast.
 Module CS := FlacCodec.Stream.
 
